@@ -25,6 +25,7 @@ type LoopSpec struct {
 	BodyEns    []*Clause // loop-body contract: ensures (checked at every back edge and `continue`)
 	ExitEns    []*Clause // loop-body contract: checked on exit edges taken from inside the body
 	DoneEns    []*Clause // loop-body contract: checked where the loop's own condition ends the loop (in the loop-head state)
+	BreakEns   []*Clause // loop-body contract: checked on exit edges taken from inside the body only (break), not on the condition exit
 	Unroll     int
 	Modifies   []*Clause
 	Decreases  *Clause
@@ -55,6 +56,7 @@ type FuncContract struct {
 	Mode     string
 	Requires []*Clause
 	Ensures  []*Clause
+	TrustedEns []*Clause // `ensures trusted E`: used at call sites, NOT verified against the body (reported as assumption)
 	Canaries []*Clause
 	Modifies []*Clause
 	ModAll   bool // no modifies clause given => callee may modify anything reachable (havoc all)
@@ -179,7 +181,12 @@ func ParseContractFile(path, pkgPath string) (*ContractFile, error) {
 		case "requires":
 			cur.Requires = append(cur.Requires, newClause())
 		case "ensures":
-			cur.Ensures = append(cur.Ensures, newClause())
+			if strings.HasPrefix(rest, "trusted ") {
+				rest = strings.TrimSpace(rest[8:])
+				cur.TrustedEns = append(cur.TrustedEns, newClause())
+			} else {
+				cur.Ensures = append(cur.Ensures, newClause())
+			}
 		case "canary":
 			rest = strings.TrimSpace(strings.TrimPrefix(rest, "ensures"))
 			cur.Canaries = append(cur.Canaries, newClause())
@@ -334,6 +341,8 @@ func ParseContractFile(path, pkgPath string) (*ContractFile, error) {
 					ls.ExitEns = append(ls.ExitEns, newClause())
 				case "done":
 					ls.DoneEns = append(ls.DoneEns, newClause())
+				case "break":
+					ls.BreakEns = append(ls.BreakEns, newClause())
 				default:
 					return nil, fmt.Errorf("%s:%d: bad loop body clause %q", path, ln, k2)
 				}
